@@ -326,5 +326,17 @@ MUTANTS = {
         ("user mask count unchecked", PEF, "            if torch.sum(info_indices) != self.code_dimension:\n                raise ValueError(f\"info_indices must have exactly {self.code_dimension} True values, \" f\"got {torch.sum(info_indices)}\")\n", "", "violation", "INFO-SET"),
         ("twin: bitnode commuted", SCF, "        return y2 + (1 - 2 * x) * y1", "        return (1 - 2 * x) * y1 + y2", "silent"),
     ],
+    "C20": [
+        ("wagner list index", WAG, "            block_values = received[block_pos]", "            block_values = received[batch_indices + [block_idx]]", "violation", "T-LIST"),
+        ("bm row keyed", BMF, "                error_positions = self._find_error_locations(error_locator)", "                error_positions = self._find_error_locations(error_locator) if i != 1 else [5]", "violation", "ROW-INDEX"),
+        ("shared syndrome table cache", SLF, ["        self._syndrome_table = self._build_syndrome_table()", "    def _validate_encoder_type(self, encoder: LinearBlockCodeEncoder) -> None:"], ["        key = (type(encoder).__name__, encoder.code_length, encoder.code_dimension)\n        if key not in SyndromeLookupDecoder._TABLES:\n            SyndromeLookupDecoder._TABLES[key] = self._build_syndrome_table()\n        self._syndrome_table = SyndromeLookupDecoder._TABLES[key]", "    _TABLES: Dict[Any, Any] = {}\n\n    def _validate_encoder_type(self, encoder: LinearBlockCodeEncoder) -> None:"], "violation", "CACHE-KEY"),
+        ("twin: complete cache key", SLF, ["        self._syndrome_table = self._build_syndrome_table()", "    def _validate_encoder_type(self, encoder: LinearBlockCodeEncoder) -> None:"], ["        key = (self.encoder, self.code_length, self.redundancy)\n        if key not in SyndromeLookupDecoder._TABLES:\n            SyndromeLookupDecoder._TABLES[key] = self._build_syndrome_table()\n        self._syndrome_table = SyndromeLookupDecoder._TABLES[key]", "    _TABLES: Dict[Any, Any] = {}\n\n    def _validate_encoder_type(self, encoder: LinearBlockCodeEncoder) -> None:"], "silent"),
+        ("qam in-place on input", QAM, "        constellation = self.modulator.constellation\n        batch_shape = y.shape[:-1]", "        constellation = self.modulator.constellation\n        y = y.view(y.shape)\n        y[..., 0] = y[..., 0]\n        batch_shape = y.shape[:-1]", "violation", "PURITY"),
+        ("dpsk noise var doubled in place", DPSK, "                effective_noise_var = 2.0 * noise_var.to(device=y.device)", "                effective_noise_var = noise_var.to(device=y.device)\n                effective_noise_var *= 2.0", "violation", "PURITY"),
+        ("bp batch-coupled early exit", BP, "                messages = self.marginalize(cv, received_block.view(-1, L))\n", "                messages = self.marginalize(cv, received_block.view(-1, L))\n                if not torch.any(torch.matmul(sign_to_bin(torch.sign(messages)), self.H.t().float()) % 2):\n                    break\n", "violation", "BATCH-COUPLED"),
+        ("average power zero test on energy", PW, "            zero_mask = current_power < 1e-10\n\n            # Compute scaling factors for all batch items at once\n            scale = torch.sqrt(self.average_power", "            zero_mask = current_power * num_elements < 1e-10\n\n            # Compute scaling factors for all batch items at once\n            scale = torch.sqrt(self.average_power", "violation", "ZERO-PATH"),
+        ("stateful running scale in constraint", PW, "        # Handle batched data by processing all batch items in parallel\n        if x.dim() > 1 and x.shape[0] > 1:\n            # For batched data, reshape to [batch_size, -1] to process each batch item independently but in parallel\n            original_shape = x.shape\n            batch_size = original_shape[0]\n\n            # Reshape for parallel processing\n            x_reshaped = x.reshape(batch_size, -1)\n\n            # Process all batch items in parallel\n            if torch.is_complex(x):\n                current_power = torch.sum(torch.abs(x_reshaped) ** 2, dim=1, keepdim=True)\n            else:", "        self._calls = getattr(self, \"_calls\", 0)\n        self._calls += 1\n        if x.dim() > 1 and x.shape[0] > 1:\n            original_shape = x.shape\n            batch_size = original_shape[0]\n            x_reshaped = x.reshape(batch_size, -1)\n            if torch.is_complex(x):\n                current_power = torch.sum(torch.abs(x_reshaped) ** 2, dim=1, keepdim=True)\n            else:", "violation", "STATE"),
+        ("twin: clone before in-place", QAM, "        constellation = self.modulator.constellation\n        batch_shape = y.shape[:-1]", "        constellation = self.modulator.constellation\n        y = y.clone()\n        y[..., 0] = y[..., 0]\n        batch_shape = y.shape[:-1]", "silent"),
+    ],
 }
 
